@@ -153,6 +153,12 @@ fn probe(a: &[String]) {
         println!("parent_visitor {:.4}s", t1.elapsed().as_secs_f64());
       }
     }
+    "c20" => {
+      let t = rd(&a[1]);
+      let mut ctx = vh::sup::Ctx::new("C20", 1, vh::sup::Tier::Quick);
+      ctx.verbose = true;
+      vh::props::c20::check_text(&mut ctx, &t);
+    }
     "parseq" => {
       let t = rd(&a[1]);
       println!("{:?}", cddl::cddl_from_str(&t, false).map(|c| c.rules.len()));
